@@ -15,7 +15,7 @@ META = {
              'linkage, t, mode); non-trivial = at least one cluster with >= 2 members whose scores are not all equal'),
     'require': {'one-per-cluster': 1500, 'best-ranked': 800, 'score-model': 800, 'hull': 500, 'corners': 500, 'nontrivial': 600},
     'scale': {'quick': 1, 'thorough': 450},
-    'quick_cases': 5000, 'thorough_cases': 2400000,
+    'quick_cases': 15000, 'thorough_cases': 2400000,
     'assumptions': ['clusters are recomputed with the library\'s own linkage functions (C11 decides those)',
                     'the lower hull is recomputed with the saved graham_scan_lower (C18 decides it)',
                     'fit of a window with <= 2 points or constant y is 1 (a horizontal line fits exactly)'],
